@@ -96,21 +96,27 @@ def gen_file(rng, big=70000, marker=True, debug=False, defect=False):
             desc[0xC6] = bytes([intf])
         vd = "*"
         if typ == 1 and rng.random() < 0.6:
-            v = g.rbytes(rng, rng.choice([4, 4, 7, 2]))
+            v = g.rbytes(rng, rng.choice([4, 4, 7, 2, 3, 5, 1]))
             if hw == 0xBE:
-                v = bytes(rng.choice(b"0123456789.") for _ in range(rng.choice([7, 8, 4])))      # BGM versions are text
-            vd = " ".join(f"{b:02X}" for b in bytes([0, 0, len(v)]) + v)
+                v = bytes(rng.choice(b"0123456789.") for _ in range(rng.choice([7, 8, 4, 6])))   # BGM versions are text
+            # the version is the `len` bytes behind the length byte; whatever follows in the descriptor is not part of it
+            trail = g.rbytes(rng, rng.choice([0, 0, 1, 3]))
+            vd = " ".join(f"{b:02X}" for b in bytes([rng.choice([0, 0, 7]), rng.choice([0, 0, 9]), len(v)]) + v + trail)
+            vlen = len(v)
         w.text(f"#>CHECK_FWVER VERSIONDESC={vd}")
         if typ == 1:
             flt = bytes([1, 1]) + hw.to_bytes(2, "big")
+            if hw == 0xBE and rng.random() < 0.5:
+                # the filters of the BGM12X family that do not end in the hardware id (special-cased by the importer)
+                flt = bytes.fromhex(rng.choice(["010100B6", "010280B600BE", "010280BE00B6"]))
         else:
             flt = UC_FILTER
         w.text("#>SELECT FILTER=" + " ".join(f"{b:02X}" for b in flt))
         desc[0xC9] = flt
         if typ == 1:
-            desc[0xC4] = flt[-2:]
+            desc[0xC4] = flt[-2:] if flt[:2] == bytes([1, 1]) and flt != bytes.fromhex("010100B6") else (0xBE).to_bytes(2, "big")
         if vd != "*":
-            desc[0xC8] = bytes.fromhex(vd.replace(" ", ""))[3:]
+            desc[0xC8] = bytes.fromhex(vd.replace(" ", ""))[3:3 + vlen]
         if typ == 0:
             proto = rng.choice(list(PROTOCOLS))
             w.text(f"#>SELECT_IF PROTOCOL={proto}")
